@@ -57,7 +57,10 @@ SocketServer::SocketServer()
 SocketServer::~SocketServer()
 {
 	if(_thread) {
-		_thread->kill();
+		if(_running)
+			_thread->kill();
+		else
+			_thread->join(); // the accept loop has ended: let the thread function return before its object is deleted
 		delete _thread;
 	}
 }
